@@ -40,13 +40,15 @@ var szNames = []string{"session-compressible", "session-incompressible", "sessio
 func proxyStores(secret []byte) (sessions.SessionStore, aead.Cipher) {
 	ss, _, ci, err := proxy.VerifC02Stores(proxy.CookieConfig{Name: cookieName,
 		Secret: base64.StdEncoding.EncodeToString(secret), Expire: 168 * time.Hour, Secure: true, HTTPOnly: true})
-	c.Must(err)
+	if !sutOK("proxy.SetCookieStore(valid cookie config)", err) {
+		return nil, brokenCipher{err}
+	}
 	return ss, ci
 }
 
 func jsonLen(v value) int {
 	b, err := json.Marshal(v.iface())
-	c.Must(err)
+	sutOK("json.Marshal(value)", err)
 	return len(b)
 }
 
@@ -108,6 +110,9 @@ func withGroups(r *c.Rng, n int) value {
 // saveLoad seals through SaveSession and opens the Set-Cookie value through LoadSession (store API only:
 // header sizes are the browser's concern). 1 = equal session, 2 = anything else.
 func saveLoad(st sessions.SessionStore, v value) int {
+	if st == nil {
+		return 2
+	}
 	rec := httptest.NewRecorder()
 	req := httptest.NewRequest("GET", "http://app.example.test/", nil)
 	if err := st.SaveSession(rec, req, v.sess); err != nil {
@@ -264,7 +269,7 @@ func (w *world) reopenCase(kind int, v value, pst sessions.SessionStore, pci aea
 			st, ci = pst, pci
 		}
 		text, err := ci.Marshal(v.sess)
-		c.Must(err)
+		sutOK("Marshal(session) before open-mutate-reopen", err)
 		load := func() (*sessions.SessionState, error) {
 			r := httptest.NewRequest("GET", "http://app.example.test/", nil)
 			r.Header.Set("Cookie", cookieName+"="+text)
@@ -303,7 +308,7 @@ func (w *world) reopenCase(kind int, v value, pst sessions.SessionStore, pci aea
 			ci = pci
 		}
 		text, err := ci.Marshal(v.sess)
-		c.Must(err)
+		sutOK("Marshal(session) before open-mutate-reopen", err)
 		open := func(into *sessions.SessionState) (*sessions.SessionState, error) {
 			if e := ci.Unmarshal(text, into); e != nil {
 				return nil, sessions.ErrInvalidSession
